@@ -64,6 +64,12 @@ pub fn gen_c18(rng: &mut Rng, thorough: bool, release: bool) -> Vec<Tagged> {
         let tagtop = if i % 6 == 2 { "-top64" } else { "" };
         out.push((format!("gen{}", tagtop), Case::RandGen { wrap, seed, n: rng.range(1, 6), lo, hi }));
         out.push((format!("shuffle{}", tagtop), Case::Shuffle { wrap, seed, n: rng.range(0, 40) }));
+        if i % 6 == 2 {
+            // top states with intervals whose width is inexact in binary32: (max-min)+min can round above max
+            for &(lo, hi) in &[(-0.1f32, 0.2f32), (-0.7, 0.1), (0.1, 0.7), (-1e-3, 3e-3)] {
+                out.push(("gen-top64-inexact-width".into(), Case::RandGen { wrap, seed, n: 2, lo, hi }));
+            }
+        }
     }
     // seeds far above the modulus: the first multiplication overflows u64
     for k in 0..(if thorough { 40 } else { 8 }) {
